@@ -176,8 +176,8 @@ theorem kwc_selc {c : Byte} (h : kwc c = true) : selc c = true := by
 
 /-- `SkipInstance` gets over a typed select value -/
 theorem selText_scan {F} (env : Env F) (m : SelMember) (n0 : Byte) (ns : List Byte) (hn0 : isAlpha n0 = true) (hns : ns.all kwc = true)
-    (tok : List Byte) (a : Atom F) (hleaf : LeafCovered env m tok a) (sB sC : List Byte) (hsB : sB.all isSpace = true)
-    (hsC : sC.all isSpace = true) : Passes (selText n0 ns sB tok sC) := by
+    (tok : List Byte) (a : Atom F) (hleaf : LeafCovered env m tok a) (sA sB sC : List Byte) (hsA : sA.all isSpace = true)
+    (hsB : sB.all isSpace = true) (hsC : sC.all isSpace = true) : Passes (selText n0 ns sA sB tok sC) := by
   obtain ⟨_, _, _, _, _, _, _, hn0k, _⟩ := alpha_facts hn0
   have hname : Passes (n0 :: ns) :=
     Passes.all_plain _ (all_imp (fun c => kwc_plain) _ (by simp only [List.all_cons, hn0k, Bool.true_and]; exact hns))
@@ -186,9 +186,10 @@ theorem selText_scan {F} (env : Env F) (m : SelMember) (n0 : Byte) (ns : List By
     seps_then sC (Seps.blanks sC hsC) 41 [] (fun c => c ≠ 39) (fun c hc h => by rw [h] at hc; exact absurd hc (by decide)) (by decide) (by decide)
   rw [hy] at hC
   have hT : Passes (tok ++ (sC ++ [41])) := by rw [hy]; exact PassesS.append_cons (leafCovered_scan env m tok a hleaf) hC hy39
-  have e : selText n0 ns sB tok sC = (n0 :: ns) ++ ([40] ++ (sB ++ (tok ++ (sC ++ [41])))) := by simp [selText]
+  have e : selText n0 ns sA sB tok sC = (n0 :: ns) ++ (sA ++ ([40] ++ (sB ++ (tok ++ (sC ++ [41]))))) := by simp [selText]
   rw [e]
-  exact Passes.append hname (Passes.append (Passes.plain 40 (by decide)) (Passes.append (Passes.seps (Seps.blanks sB hsB)) hT))
+  exact Passes.append hname (Passes.append (Passes.seps (Seps.blanks sA hsA))
+    (Passes.append (Passes.plain 40 (by decide)) (Passes.append (Passes.seps (Seps.blanks sB hsB)) hT)))
 
 /-- the element kinds of aggregates for which the element loop is proved: INTEGER, REAL, NUMBER, STRING, ENUMERATION /
     BOOLEAN / LOGICAL, BINARY, entity references, typed SELECT values and references, each under the same provisos as
@@ -229,9 +230,9 @@ inductive ElemCovered {F} (env : Env F) : ElemTy → ElemG F → Prop where
   | selTyped (n : String) (sd : SelectD) (hsd : env.dict.select? n = some sd) (m : SelMember) (n0 : Byte) (ns : List Byte)
       (hn0 : isAlpha n0 = true) (hns : ns.all kwc = true)
       (hfind : sd.members.find? (fun x => x.name == bytesToString (upperBytes (n0 :: ns)) && !x.ty.isEntity) = some m)
-      (tok : List Byte) (av : Atom F) (hleaf : LeafCovered env m tok av) (sB sC : List Byte) (hsB : sB.all isSpace = true)
-      (hsC : sC.all isSpace = true) (before after : List Byte) (hb : Seps before) (ha : Seps after) :
-      ElemCovered env (.select n) { tok := selText n0 ns sB tok sC, before := before, after := after, v := .sel m.name av }
+      (tok : List Byte) (av : Atom F) (hleaf : LeafCovered env m tok av) (sA sB sC : List Byte) (hsA : sA.all isSpace = true)
+      (hsB : sB.all isSpace = true) (hsC : sC.all isSpace = true) (before after : List Byte) (hb : Seps before) (ha : Seps after) :
+      ElemCovered env (.select n) { tok := selText n0 ns sA sB tok sC, before := before, after := after, v := .sel m.name av }
   | selRef (n : String) (sd : SelectD) (hsd : env.dict.select? n = some sd) (m : SelMember)
       (ds : List Byte) (hne : ds ≠ []) (hds : ds.all isDigit = true) (hhi : ((digitsVal ds 0 : Nat) : Int) ≤ IStream.intMax)
       (hasg : assignEntity env sd ((digitsVal ds 0 : Nat) : Int) = some m)
@@ -254,9 +255,9 @@ theorem elemCovered_rd {F} (env : Env F) (hcfg : env.lex.criSkipsComments = true
   | generic body hb before hbf => exact ElemRd.generic env hcfg hagg body hb before hbf
   | number hnum tok dec v htok hden hv hnn before after hb ha =>
     exact ElemRd.number env hcfg hagg hnum tok dec v htok hden hv hnn before after hb ha
-  | selTyped n sd hsd m n0 ns hn0 hns hfind tok av hleaf sB sC hsB hsC before after hb ha =>
+  | selTyped n sd hsd m n0 ns hn0 hns hfind tok av hleaf sA sB sC hsA hsB hsC before after hb ha =>
     exact ElemRd.selTyped env hcfg hagg n sd hsd m n0 ns hn0 (all_imp (fun c => kwc_selc) _ hns) hfind tok av
-      (leafCovered_rd env hcfg m tok av hleaf) sB sC hsB hsC before after hb ha
+      (leafCovered_rd env hcfg m tok av hleaf) sA sB sC hsA hsB hsC before after hb ha
   | selRef n sd hsd m ds hne hds hhi hasg before after hb ha =>
     exact ElemRd.selRef env hcfg hagg n sd hsd m ds hne hds hhi hasg before after hb ha
 
@@ -277,8 +278,8 @@ theorem elemCovered_scan {F} (env : Env F) (ety : ElemTy) (e : ElemG F) (h : Ele
   | generic body hb before hbf => exact ⟨hb.passes_paren.toS, hbf, Seps.blanks [] (by simp)⟩
   | number hnum tok dec v htok hden hv hnn before after hb ha =>
     exact ⟨(Passes.all_plain _ (by rcases htok with h | h; exact isReal_plain _ h; exact isInteger_plain _ h)).toS, hb, ha⟩
-  | selTyped n sd hsd m n0 ns hn0 hns hfind tok av hleaf sB sC hsB hsC before after hb ha =>
-    exact ⟨(selText_scan env m n0 ns hn0 hns tok av hleaf sB sC hsB hsC).toS, hb, ha⟩
+  | selTyped n sd hsd m n0 ns hn0 hns hfind tok av hleaf sA sB sC hsA hsB hsC before after hb ha =>
+    exact ⟨(selText_scan env m n0 ns hn0 hns tok av hleaf sA sB sC hsA hsB hsC).toS, hb, ha⟩
   | selRef n sd hsd m ds hne hds hhi hasg before after hb ha =>
     exact ⟨(Passes.append (a := [35]) (Passes.plain 35 (by decide))
       (Passes.all_plain _ (all_imp (fun c => digit_plain) _ hds))).toS, hb, ha⟩
@@ -342,9 +343,9 @@ inductive Covered {F} (env : Env F) : Param F → Prop where
       (sd : SelectD) (hsd : env.dict.select? n = some sd) (m : SelMember) (n0 : Byte) (ns : List Byte)
       (hn0 : isAlpha n0 = true) (hns : ns.all kwc = true)
       (hfind : sd.members.find? (fun x => x.name == bytesToString (upperBytes (n0 :: ns)) && !x.ty.isEntity) = some m)
-      (tok : List Byte) (av : Atom F) (hleaf : LeafCovered env m tok av) (sB sC : List Byte) (hsB : sB.all isSpace = true)
-      (hsC : sC.all isSpace = true) (before after : List Byte) (hb : Seps before) (ha : Seps after) :
-      Covered env { a := a, v := .one (.sel m.name av), tok := selText n0 ns sB tok sC, before := before, after := after }
+      (tok : List Byte) (av : Atom F) (hleaf : LeafCovered env m tok av) (sA sB sC : List Byte) (hsA : sA.all isSpace = true)
+      (hsB : sB.all isSpace = true) (hsC : sC.all isSpace = true) (before after : List Byte) (hb : Seps before) (ha : Seps after) :
+      Covered env { a := a, v := .one (.sel m.name av), tok := selText n0 ns sA sB tok sC, before := before, after := after }
   | selRef (a : AttrD) (n : String) (hty : a.ty = .one (.select n)) (hder : a.derived = false) (hred : a.redefining = false)
       (sd : SelectD) (hsd : env.dict.select? n = some sd) (m : SelMember)
       (ds : List Byte) (hne : ds ≠ []) (hds : ds.all isDigit = true) (hhi : ((digitsVal ds 0 : Nat) : Int) ≤ IStream.intMax)
@@ -383,11 +384,11 @@ theorem covered_ok {F} (env : Env F) (strict : Bool) (hcfg : env.lex.criSkipsCom
     obtain ⟨sk', _, h⟩ := attr_aggr env strict a ety hty hder hcfg hagg es inner
       (fun e he => elemCovered_rd env hcfg hagg ety e (hok e he)) hin l sk after ha d rest hd
     exact ⟨sk', h⟩
-  | selTyped a n hty hder hred sd hsd m n0 ns hn0 hns hfind tok av hleaf sB sC hsB hsC before after hb ha =>
+  | selTyped a n hty hder hred sd hsd m n0 ns hn0 hns hfind tok av hleaf sA sB sC hsA hsB hsC before after hb ha =>
     obtain ⟨hn0s, hn047, _, _, _, _, _, _, hn092⟩ := alpha_facts hn0
     refine ⟨hred, ⟨n0, _, rfl, hn0s, hn047, hn092⟩, hb, fun l sk d rest hd => ?_⟩
     obtain ⟨sk', _, h⟩ := attr_select_typed env strict a n hty hder hcfg sd hsd m n0 ns hn0 (all_imp (fun c => kwc_selc) _ hns) hfind
-      tok av (leafCovered_rd env hcfg m tok av hleaf) sB sC hsB hsC l sk after ha d rest hd
+      tok av (leafCovered_rd env hcfg m tok av hleaf) sA sB sC hsA hsB hsC l sk after ha d rest hd
     exact ⟨sk', h⟩
   | selRef a n hty hder hred sd hsd m ds hne hds hhi hasg before after hb ha =>
     exact ⟨hred, ⟨35, ds, rfl, by decide, by decide, by decide⟩, hb, fun l sk d rest hd =>
@@ -426,9 +427,9 @@ theorem covered_rd {F} (env : Env F) (strict : Bool) (hcfg : env.lex.criSkipsCom
   | aggr a ety hty hder hred es inner hok hin before after hb ha =>
     exact attr_aggr env strict a ety hty hder hcfg hagg es inner
       (fun e he => elemCovered_rd env hcfg hagg ety e (hok e he)) hin l sk after ha d rest hd
-  | selTyped a n hty hder hred sd hsd m n0 ns hn0 hns hfind tok av hleaf sB sC hsB hsC before after hb ha =>
+  | selTyped a n hty hder hred sd hsd m n0 ns hn0 hns hfind tok av hleaf sA sB sC hsA hsB hsC before after hb ha =>
     exact attr_select_typed env strict a n hty hder hcfg sd hsd m n0 ns hn0 (all_imp (fun c => kwc_selc) _ hns) hfind
-      tok av (leafCovered_rd env hcfg m tok av hleaf) sB sC hsB hsC l sk after ha d rest hd
+      tok av (leafCovered_rd env hcfg m tok av hleaf) sA sB sC hsA hsB hsC l sk after ha d rest hd
   | selRef a n hty hder hred sd hsd m ds hne hds hhi hasg before after hb ha =>
     exact ⟨sk, Or.inl rfl, attr_select_ref env strict a n hty hder hcfg sd hsd m ds hne hds hhi hasg l sk after ha d rest hd⟩
   | number a hty hder hred tok dec v htok hden hv hnn before after hbf ha =>
@@ -733,11 +734,11 @@ theorem storable_covered {F} (env : Env F) (cfg : RWCfg) (hsa : cfg.stringNodeAp
     obtain ⟨n0, ns, hnb, hn0, hns, hback⟩ := keyword_bytes hkw
     obtain ⟨hw, hlc⟩ := storableLeaf_spec env m av tok hleaf
     have hmt : memberTy env.dict (.select n) m.name = m.ty := by simp [memberTy, hsd, hmem]
-    have : writeAttr env.ops cfg env.dict a (.one (.sel m.name av) : MVal F) = selText n0 ns [] tok [] := by
+    have : writeAttr env.ops cfg env.dict a (.one (.sel m.name av) : MVal F) = selText n0 ns [] [] tok [] := by
       simp only [writeAttr, hty, writeElemAttr, writeSelect, hmt]
       cases hmty : m.ty <;> simp_all [ElemTy.isEntity, selText]
     unfold paramOf; rw [this]
-    exact Covered.selTyped a n hty hder hred sd hsd m n0 ns hn0 hns (by rw [hback]; exact hfind) tok av hlc [] [] (by simp) (by simp)
+    exact Covered.selTyped a n hty hder hred sd hsd m n0 ns hn0 hns (by rw [hback]; exact hfind) tok av hlc [] [] [] (by simp) (by simp) (by simp)
       [] [] (Seps.blanks [] (by simp)) (Seps.blanks [] (by simp))
   | selRef n hty hder hred sd hsd m hmem tg hent id h0 hhi hasg =>
     obtain ⟨ds, hds, hne, hdig, hval⟩ := showInt_nonneg id h0
@@ -858,8 +859,8 @@ theorem covered_scan {F} (env : Env F) (p : Param F) (h : Covered env p) : Param
     exact ⟨(Passes.all_plain _ (isReal_plain _ htok)).toS, hbf, ha⟩
   | aggr a ety hty hder hred es inner hok hin before after hb ha =>
     exact ⟨(Passes.aggrTextG es inner (fun e he => elemCovered_scan env ety e (hok e he)) hin).toS, hb, ha⟩
-  | selTyped a n hty hder hred sd hsd m n0 ns hn0 hns hfind tok av hleaf sB sC hsB hsC before after hb ha =>
-    exact ⟨(selText_scan env m n0 ns hn0 hns tok av hleaf sB sC hsB hsC).toS, hb, ha⟩
+  | selTyped a n hty hder hred sd hsd m n0 ns hn0 hns hfind tok av hleaf sA sB sC hsA hsB hsC before after hb ha =>
+    exact ⟨(selText_scan env m n0 ns hn0 hns tok av hleaf sA sB sC hsA hsB hsC).toS, hb, ha⟩
   | selRef a n hty hder hred sd hsd m ds hne hds hhi hasg before after hb ha =>
     exact ⟨(Passes.append (a := [35]) (Passes.plain 35 (by decide))
       (Passes.all_plain _ (all_imp (fun c => digit_plain) _ hds))).toS, hb, ha⟩
